@@ -14,17 +14,30 @@ CHECKS = {
          "its writer, the hosting rule is total on legal statements, rejection happens exactly for statements filed elsewhere or redundant, and an accepted design emits exactly the tree "
          "edges: single driver, every member equals its writer at the unique fixed point, in connect order. Tie to the code: generated hierarchical components are translated by the real VerilogTranslationPass, "
          "the text is parsed by an independent IEEE-precedence parser, executed by the Lean semantics and compared cycle by cycle with the PyMTL simulation on every output; per update "
-         "block the parsed real text is compared with tr(real typed RTLIR) on sampled stores.",
+         "block the parsed real text is compared with tr(real typed RTLIR) on sampled stores. Declarations, instances and operand rendering of the structural translators are inside the model "
+         "as well (Model/SDecl.lean, Props/C03d.lean, 15 theorems registered here): the emitted declarations are exactly the objects of the component's structural table, in order, with the list "
+         "dimensions of their levels outermost first (decls_cover, decl_dims_in_order); every instance block binds every port of the child exactly once to the wire declared for it, one instance per "
+         "index tuple (inst_binds_child_ports, insts_cover_elements); the index stack of gen_signal_expr and the rendering queue yield identifier, list indices in declaration order, then data-type "
+         "selects, and the rendered operand denotes the value of the PyMTL object path over the arrays the declarations create (operand_denotes; transposed_operand_differs shows a transposed order "
+         "makes it false); identifiers injective under okName; compared item by item with the parsed real text of generated hierarchies (non-square 2-D / 3-D lists of ports, wires, interfaces, "
+         "sub-components) and of 69 library components. The SV semantics carries signedness (IEEE 1800 11.8: sized literals / logic unsigned, integer variables and $signed signed, a size cast keeps "
+         "its operand's sign, binary arithmetic signed iff both operands are); the translation theorems hold under the decidable side condition signSafe, which is a THEOREM for this backend "
+         "(signSafe_sv, expr_correct_sv, stmt_sim_sv: int unsigned loop variables).",
          "PARTIAL: the SV semantics is a formalisation that cannot be cross-validated here (no Verilog simulator in the sandbox) and is part of the trusted base; 'syntactically valid' "
-         "means accepted by harness/checks/c03_svparse.py; of the structural translator, connection placement / orientation is proved (C03s) while declarations, instances and the rendering of a pair into text are covered by executing the parsed text; WT is a hypothesis (C10 relates it to the "
+         "means accepted by harness/checks/c03_svparse.py; of the structural translator, connection placement / orientation (C03s) and declarations / instances / operand rendering (C03d) are modelled and compared exactly; constants, free variables, temporaries, placeholders and the link from the declarations' array environment to the SV store semantics stay with the executed comparison; WT is a hypothesis (C10 relates it to the "
          "checker). Known finding C03-F17 (negative-step loops wrap in unsigned arithmetic).",
          "Lean 4 proof (translation correctness under context-width semantics) + translation validation by parsing and executing the real emitted text", "DESIGN.md §5 C03"),
  'C12': ("Lean 4 proof: the flat port map of the Yosys backend is exact — each flattened leaf is the slice [msb:lsb] of the packed value of the original port (flat_is_slice), the leaf "
          "ranges are pairwise disjoint and cover [0,width) (flat_partition), mangled leaf/port names are injective (flat_names_injective, port_names_injective) — and the expression and "
          "statement translation theorems of C03 hold for the plain-Verilog forms (expr_correct_yosys, stmt_correct_yosys) with the same single-driver and unique-fixed-point results. Tie "
          "to the code: YosysTranslationPass output parsed and executed by the Lean semantics vs the PyMTL simulation cycle by cycle, single-driver check on the parsed text, and the port "
-         "map checked by driving/observing every flattened leaf against the predicted slice of to_bits().",
-         "PARTIAL as C03 (SV/Verilog semantics and parser trusted; structural translator only executed). Known finding C12-F10: a struct signal in output direction has several "
+         "map checked by driving/observing every flattened leaf against the predicted slice of to_bits(). The Verilog semantics carries signedness: the Yosys backend declares loop variables "
+         "`integer` (signed) and renders them N'(x), and a size cast keeps the sign, so an operator whose operands are all loop variables is evaluated signed; expr_correct_yosys / stmt_correct_yosys are "
+         "proved under the decidable side condition signSafe, and signed_loopvar_counterexample (i<j, i=1, j=5 in 3 bits) / signed_loopvar_mod_counterexample show it cannot be dropped: the real code "
+         "violates the property there (known finding C12-yosys-signed-loopvar; the parser and evaluator carry integer declarations, so the executed text gives the Verilog answer). Yosys wire forms, "
+         "flat-port <-> wire-form connections, instances and operands are inside the model (Props/C03d.lean: ywire_dims_in_order, yconn_pairs_same_element, yrender_path ...) and compared exactly with "
+         "the parsed text.",
+         "PARTIAL as C03 (SV/Verilog semantics and parser trusted, incl. my reading of 11.8 and of indices / shift amounts as unsigned bit patterns). Known findings C12-yosys-signed-loopvar, C12-F25, and C12-F10: a struct signal in output direction has several "
          "unsynchronised forms (multi-driver / undriven / output mismatch), reported from labelled streams under one signature.",
          "Lean 4 proof (flat port map = slices of the packed value; translation correctness) + translation validation of the real emitted text", "DESIGN.md §5 C12"),
  'C08': ("Lean 4 proof over a model of _floodfill_nets and _resolve_value_connections: nets are exactly the undirected connected components with at least two members, each once "
@@ -64,7 +77,11 @@ CHECKS = {
          "(translateChecked, now in /repo) succeeds exactly when no instance is aliased; full and unique names are injective in the parameter values for a fixed class (separator-free "
          "images, collision-free hash) and the repaired name function always emits an identifier; orders of modules, ports and blocks are invariant under enumeration order. Tied to pymtl3 "
          "by differential execution on names and on design x backend cases (stdlib, examples, generated hierarchies, probe streams) including which body each emitted module holds. "
-         "PARTIAL: byte-level determinism across PYTHONHASHSEEDs and repeated translations is established by correspondence only (3 seeds quick, 12 thorough, 8-26 translations per case).",
+         "Identifier mangling is inside the model: flatId (the `__`-join of user names and list indices behind sub-component / interface port wires, instance names and the Yosys flattening) "
+         "is injective on paths whose user names are okName (flatId_inj, flatIds_nodup) and Struct.get_full_name / get_name are injective on struct types without nested structs (structFullName_inj, "
+         "structName_inj); without these conditions the names collide (flatId_collision_witnesses, structName_collision_witnesses, struct_collision_changes_layout, by decide), every witness being "
+         "rebuilt and put through both translators on every run — which now REFUSE such designs (two fix: commits); oracles: identifiers declared once, instance ports on declared wires of the port's "
+         "width, every typedef has the layout of every signal declared with it. Set-valued parameters (also nested) are rendered sorted (fix:), probed across hash seeds. PARTIAL: byte-level determinism across PYTHONHASHSEEDs and repeated translations is established by correspondence only (3 seeds quick, 12 thorough, 8-26 translations per case).",
          "Hash-seed/process determinism has no Lean counterpart (CPython set/dict iteration). The model keeps blake2b uninterpreted and module bodies opaque; the scanner is line-oriented "
          "and trusted; cross-class name injectivity and connection order are not covered. Known finding C13-param-repr-address.",
          "Lean 4 proof (verified module-table checker, aliasing characterisation, name injectivity) + byte-level determinism by differential execution (partial)", "DESIGN.md §5 C13"),
@@ -108,7 +125,11 @@ CHECKS = {
          "explicitly (field i at the sum of the widths of the later fields, element k at k*w). Equality <=> packed equality and hash congruence are proved. In a leaf-cell heap model, "
          "clone/deepcopy allocate fresh cells, @= copies visibly without aliasing (same class and via from_bits(to_bits()) across classes), and <<= is invisible until _flip which "
          "then shows the old source. Tied to /repo by a differential check (random + exhaustive small shapes, both construction syntaxes, op scripts with aliasing) with independent "
-         "offset, round-trip and copy-semantics oracles.",
+         "offset, round-trip and copy-semantics oracles. Program-level tie: Model/BStructProg.lean is an IR of the method bodies bitstructs.py emits as source text, with an evaluation "
+         "semantics over the model's values and leaf-cell heap; Props/C06g.lean (11 theorems) proves for every well-formed type shape that the canonical programs progOf m T evaluate to the model "
+         "functions (to_bits, from_bits, __eq__, __hash__, clone / deepcopy with fresh pairwise distinct leaves, @=, <<=, _flip, __init__ incl. the default constructor), so the C06 theorems transfer to "
+         "every class whose generated programs are canonical (roundtrip_transfer, clone_transfer, assign_transfer); on every run the generated source of every method of every class the run builds "
+         "(~3500 classes, ~43000 sources) is parsed and compared with progOf, and the leaf callees are tied through the regenerated PythonBits obligations (gen_concat_eq, gen_init_eq ...).",
          "Copy theorems assume the destination's leaf objects are pairwise distinct and disjoint from the source (proved for constructed/cloned/from_bits instances, not as an invariant "
          "over arbitrary user code); struct/list container identity, attribute rebinding, constructor-argument aliasing and _bitstruct_hash_cache are outside the model (container "
          "sharing after clone/deepcopy is checked on the real objects only); widths >= 1024 are proved and observed to raise ValueError in to_bits.",
@@ -131,7 +152,10 @@ CHECKS = {
          "name's prefixes, that a slice of a slice is the re-based slice of the unsliced signal, that the breadth-first list walk assigns exactly the structural indices, and that "
          "every object reachable by any expression is covered. Tied to /repo by differential execution of ~1100 (quick) / ~12700 (thorough) generated hierarchies written as real "
          "module files (name sets, full records, non-canonical expressions, FieldReassignError) with an independent oracle on the real objects (unique repr, eval(repr(o)) is o, "
-         "metadata equal to prefix values).",
+         "metadata equal to prefix values). The naming hook itself is a second, dynamic model (Model/HierHook.lean, Props/C14h.lean, 8 theorems): assign = __setattr_for_elaborate__ as a transformer of "
+         "the naming state incl. the repaired same-list re-assignment behind `s.x += [...]`; for all histories of hook assignments and += (any nesting, None holes, lists bound under a second name) every "
+         "collected object is named, eval(repr(o)) is o and names are injective (hook_names_resolve, hook_names_injective, hook_metadata); a list mutated behind the hook's back leaves an object in the "
+         "design without a name (mutated_behind_hook_unnamed = the known finding C14-list-mutated-in-place as a theorem); tied by generated construct programs elaborated in pymtl3 and interpreted by the driver.",
          "Proof is about the hand-written model Model/Hier.lean. Lazily created signals are modelled as a created set with position-determined records; dict caching is tied to the "
          "code only by `is`-identity checks. Re-elaboration invariance is proved as per-object determinism, not as permutation invariance of access order. Assumes no aliasing, "
          "homogeneous object/list lists (a `[None, Wire()]` list yields an unnamed collected object: outside the property's quantifier, opt-in probe C14_PROBE_MIXED=1), and "
